@@ -402,6 +402,21 @@ class Builder:
         self._pad(r.randrange(4, 15))
         return t
 
+    def add_shadow_gene(self, tx, strand=None, biotype='lncRNA', exons=None):
+        """A second gene on top of an existing transcript: same exons (sense copy, non-coding) or given sub-intervals,
+        possibly on the opposite strand.  Used for overlapping-gene situations."""
+        self.n += 1
+        src = self.ref.genes[tx.gene]
+        gid = f'ENSG{self.n:05d}.1'; tid = f'ENST{self.n:05d}.1'
+        strand = strand or tx.strand
+        ex = [tuple(e) for e in (exons or tx.exons)]
+        g = Gene(gid, self.chrom, min(src.start, ex[0][0]), max(src.end, ex[-1][1]), strand, biotype=biotype)
+        t = Tx(tid, gid, strand, ex, False, biotype=biotype)
+        g.txs.append(tid)
+        self.ref.genes[gid] = g
+        self.ref.txs[tid] = t
+        return t
+
     def finish(self):
         self.ref.chroms[self.chrom] = ''.join(self.buf)
         return self.ref
@@ -433,3 +448,18 @@ def random_reference(r, n_genes=3, coding_p=0.7, max_exons=3, aa_len=(12, 30), n
             fl = (r.randrange(0, 7), r.randrange(0, 7)) if r.random() < flank_p else (0, 0)
             b.add_gene(seq, strand, nex, False, isoforms=1 if r.random() < isoform_p else 0, flank=fl)
     return b.finish()
+
+
+def add_shadow(ref, tx, strand=None, biotype='lncRNA', exons=None):
+    """Add to a finished Reference a second, non-coding gene overlapping transcript tx (same or given exons, any strand)."""
+    n = len(ref.genes) + 50
+    src = ref.genes[tx.gene]
+    gid = f'ENSG{n:05d}.1'; tid = f'ENST{n:05d}.1'
+    strand = strand or tx.strand
+    ex = [tuple(e) for e in (exons or tx.exons)]
+    g = Gene(gid, src.chrom, min(src.start, ex[0][0]), max(src.end, ex[-1][1]), strand, biotype=biotype)
+    t = Tx(tid, gid, strand, ex, False, biotype=biotype)
+    g.txs.append(tid)
+    ref.genes[gid] = g
+    ref.txs[tid] = t
+    return t
